@@ -22,6 +22,14 @@ def check(run):
     run.attempt(exc, run, p, sh)
     run.attempt(rexflags, run, p)
     run.attempt(readonly, run, p, roots)
+    # database discovery and verification run the same base classes and write the same .tdda text
+    from .common import shared_rule
+    from .c01 import loop as _loop
+    from .c07 import discovery_table as _disc
+    from .c09 import strip as _strip
+    shared_rule(run, _disc, (run, p), 'C07-DISCOVERY', 'C08-DISCOVERY', ' (the database discoverer is this base class with SQL statistics)')
+    shared_rule(run, _loop, (run, p), 'C01-LOOP', 'C08-LOOP', ' (a table verifies against the constraints discovered from it)')
+    shared_rule(run, _strip, (run, p), 'C09-STRIP', 'C08-STRIP', ' (constraints discovered from a table are written through to_json before they are verified)')
     from .common import zero_rule
     n = zero_rule(run, 'C08-ZERO', p, list(sh.methods.values()), {'execute_scalar', 'agg', 'min', 'max', 'len', 'sum'},
                   'zero is a statistic: in the SQL handler a value obtained from execute_scalar() or an aggregate (a minimum length of 0, '
